@@ -30,13 +30,20 @@ END == 1000
 
 \* ---- what the crate's *design* says about each token kind ------------------
 \* destructor: borrow lasts to end of scope unless the token is dropped / moved earlier
-HasDrop(k) == k \in {"Vec", "String", "Box", "VecIntoIter", "Drain", "Splice", "DrainFilter", "StrDrain", "HiddenVec", "BoxedSlice"}
+HasDrop(k) == k \in {"Vec", "String", "Box", "VecIntoIter", "Drain", "Splice", "DrainFilter", "StrDrain", "HiddenVec", "BoxedSlice",
+                     \* values reached by conversion from another arena-backed value: the arena lifetime must come along
+                     "BoxSliceFromArray", "BoxArrayTryFrom", "BoxTryFromErr", "PinBox", "PinFromBox", "StringIntoBytes",
+                     "StringFromUtf8", "FromUtf8Err", "VecMacro", "FormatMacro", "CollectIn", "ApiVec", "ApiBox"}
 \* (plain references obtained by conversion -- Box::leak, Vec::into_bump_slice, String::into_bump_str -- are
 \*  ordinary tokens: no destructor, cannot reach the arena, but carry its lifetime all the same)
 \* exclusive borrow of the arena
-Exclusive(k) == k = "ChunkIter"
+Exclusive(k) == k \in {"ChunkIter", "ChunkItem"}
 \* can call back into the arena (holds &Bump, or a pointer to something that does and uses it)
-Reaches(k) == k \in {"Vec", "String", "RawIter", "ChunkIter", "Splice", "DrainFilter", "StrDrain"}
+Reaches(k) == k \in {"Vec", "String", "RawIter", "ChunkIter", "Splice", "DrainFilter",
+                     \* (a string Drain only ever shifts bytes inside the String it borrows exclusively: like Vec's Drain it
+                     \*  never allocates, and the crate declares it Send + Sync on purpose)
+                     "BumpRef", "StringIntoBytes", "StringFromUtf8", "FromUtf8Err", "VecMacro", "FormatMacro", "CollectIn",
+                     "ApiVec", "ApiBox"}
 \* Send / Sync as designed: plain references and owning wrappers of Send data are, anything that reaches is not
 IsSend(k) == ~Reaches(k)
 IsSync(k) == ~Reaches(k)
@@ -45,7 +52,7 @@ SyncDontCare(k) == k \in {"Splice", "DrainFilter", "StrDrain", "RawIter", "Chunk
 \* kinds that are created from a hidden Vec/String (which itself borrows the arena to scope end)
 Derived(k) == k \in {"Drain", "Splice", "DrainFilter", "StrDrain"}
 \* shared references are Copy: dropping or sending them does not consume the token
-IsCopy(k) == k \in {"BumpSlice", "BumpStr"}
+IsCopy(k) == k \in {"BumpSlice", "BumpStr", "BumpRef", "ChunkItem"}
 
 \* ---- statements --------------------------------------------------------------
 Mk(k) == [s |-> "mk", k |-> k, t |-> 0]
